@@ -785,13 +785,16 @@ fn process_options(scn: &C10Scenario) -> Result<crate::cli::process::Options, St
         .map_err(|e| format!("clap: {}", e))
 }
 
-fn watcher_outcome(watcher: &FileWatcher) -> Outcome {
+fn watcher_outcome(watcher: &FileWatcher, opts: &crate::model::OptSpec) -> Outcome {
     match watcher.verif_worker_tree() {
         None => Outcome::BatchErr("no worker tree (the first run failed as a whole)".to_owned()),
         Some(tree) => {
             let success = tree.success_count();
-            let mut errors: Vec<String> =
-                tree.collect_errors().iter().map(|e| e.to_string()).collect();
+            let mut errors: Vec<String> = tree
+                .collect_errors()
+                .iter()
+                .map(|e| exec::canon_text(&e.to_string(), opts))
+                .collect();
             errors.sort();
             Outcome::Done { errors, success }
         }
@@ -1040,7 +1043,7 @@ pub fn run_l2(scn: &C10Scenario, stats: &mut RunStats) -> Vec<Violation> {
                 }
                 let outcome = match &last_batch_error {
                     Some(message) => Outcome::BatchErr(message.clone()),
-                    None => watcher_outcome(&watcher),
+                    None => watcher_outcome(&watcher, &scn.opts),
                 };
                 // faults are active during one drain window only
                 fs.set_faults(Vec::new());
